@@ -2,10 +2,11 @@
    oracles of this property rest on, regenerated from /repo on every run, equal the reviewed ones:
      - group wiring (which output feeds which input, as OpenMDAO resolves it) of the canonical models of: AeroPoint, AerostructPoint
      - unit contract (declared units of every input / output) of the classes in: transfer
-   An edit that re-wires a group or drops / changes a unit in these areas breaks the obligation; the oracles of the property
-   then look for the failing input. *)
+     - option defaults of the classes in: transfer, aerodynamics
+   An edit that re-wires a group, drops / changes a unit or changes a default in these areas breaks the obligation; the oracles of
+   the property then look for the failing input. *)
 From Coq Require Import String List Bool.
-From OAS Require Import Wiring WiringReviewed IOUnits IOUnitsReviewed Tie_wiring_AeroPoint Tie_wiring_AerostructPoint Tie_units_transfer.
+From OAS Require Import Wiring WiringReviewed IOUnits IOUnitsReviewed OptionDefaults OptionDefaultsReviewed Tie_wiring_AeroPoint Tie_wiring_AerostructPoint Tie_units_transfer Tie_options_transfer Tie_options_aerodynamics.
 Import ListNotations.
 
 Theorem C11_wiring_of_AeroPoint_models_is_the_reviewed_one :
@@ -22,3 +23,13 @@ Theorem C11_unit_contract_of_transfer_is_the_reviewed_one :
   units_dir_transfer gen_io_units = units_dir_transfer reviewed_io_units /\ units_dir_transfer reviewed_io_units <> [].
 Proof. split; [exact units_transfer_reviewed | exact units_transfer_nonempty]. Qed.
 Print Assumptions C11_unit_contract_of_transfer_is_the_reviewed_one.
+
+Theorem C11_option_defaults_of_transfer_are_the_reviewed_ones :
+  options_dir_transfer gen_option_defaults = options_dir_transfer reviewed_option_defaults /\ options_dir_transfer reviewed_option_defaults <> [].
+Proof. split; [exact options_transfer_reviewed | exact options_transfer_nonempty]. Qed.
+Print Assumptions C11_option_defaults_of_transfer_are_the_reviewed_ones.
+
+Theorem C11_option_defaults_of_aerodynamics_are_the_reviewed_ones :
+  options_dir_aerodynamics gen_option_defaults = options_dir_aerodynamics reviewed_option_defaults /\ options_dir_aerodynamics reviewed_option_defaults <> [].
+Proof. split; [exact options_aerodynamics_reviewed | exact options_aerodynamics_nonempty]. Qed.
+Print Assumptions C11_option_defaults_of_aerodynamics_are_the_reviewed_ones.
